@@ -49,8 +49,25 @@ def generate(ctx):
                 fy = bytes(c | 0x20 if 65 <= c <= 90 else c for c in y)
                 if y and b"\0" not in y and fy not in folded:
                     lookups.append((y, "absent"))
+            # neighbours at the character level: one non-ASCII character replaced by the next code point / one in the next
+            # 256-block (stays clear of the surrogates, which UTF-8 cannot carry)
+            try:
+                u = x.decode("utf-8")
+            except UnicodeDecodeError:
+                u = None
+            if u:
+                for i, ch in enumerate(u):
+                    cp = ord(ch)
+                    if cp < 0x80: continue
+                    for cp2 in (cp + 1, cp ^ 0x100, cp ^ 0x400):
+                        if cp2 > 0x10FFFF or 0xD800 <= cp2 <= 0xDFFF or cp2 < 0x80: continue
+                        y = (u[:i] + chr(cp2) + u[i + 1:]).encode("utf-8")
+                        fy = bytes(c | 0x20 if 65 <= c <= 90 else c for c in y)
+                        if fy not in folded: lookups.append((y, "absent"))
         rng.shuffle(lookups)
-        if ctx.tier == "quick": lookups = lookups[:60]
+        if ctx.tier == "quick": lookups = lookups[:80]
+        # the system files open() lists (::DataSpace/...), asked of both kinds of header
+        sysl = [(bytes.fromhex(sx) if isinstance(sx, str) else sx) for sx in case["meta"]["expect"].get("sysfiles", [])]
         lines = S.file_lines(case) + ["new chm", f"open i0 {nm}", f"fastopen i0 {nm}"]
         meta_l = []
         for (x, kind) in lookups:
@@ -58,6 +75,10 @@ def generate(ctx):
             lines.append(f"fastfind i0 h{h} {x.hex()}")
             want = present.get(x) if kind == "present" else present.get(swapcase_ascii(x)) if kind == "case" else None
             meta_l.append([kind, list(want) if want else None, x.hex()])
+        for sx in sysl:
+            for h in (0, 1):
+                lines.append(f"fastfind i0 h{h} {sx.hex()}")
+                meta_l.append(["system", None, sx.hex()])
         lines += ["close i0 h1", "close i0 h0", "destroy i0"]
         yield lines, dict(family="chm.dir", lookups=meta_l, plan={k2: case["meta"].get(k2) for k2 in ("chunk_size", "density", "depth", "nchunks", "nfiles")},
                           nontrivial=(case["meta"].get("nchunks") or 0) >= 2)
@@ -69,7 +90,18 @@ def judge(ctx, meta, impl, model):
     ff = [C.kv(b[0]) for b in impl if b[0].startswith("fastfind")]
     if len(ff) != len(meta["lookups"]):
         return [Finding("mismatch", f"{len(ff)} fastfind results for {len(meta['lookups'])} lookups")]
+    prev = None
     for (kind, want, xh), r in zip(meta["lookups"], ff):
+        if kind == "system":
+            got = (r.get("st"), r.get("sec"), r.get("off"), r.get("len"))
+            if got[0] != "0" or got[1] == "-1":
+                fs.append(Finding("violation", f"fast_find({bytes.fromhex(xh)!r}) for a system file open() lists = st/sec/off/len {got}; directory {meta['plan']}"))
+                break
+            if prev is not None and prev[0] == xh and prev[1] != got:
+                fs.append(Finding("violation", f"fast_find({bytes.fromhex(xh)!r}) answers {prev[1]} on the open() header and {got} on the fast_open() header"))
+                break
+            prev = (xh, got)
+            continue
         if want is not None:
             got = (r.get("st"), r.get("sec"), r.get("off"), r.get("len"))
             exp = ("0", str(want[0]), str(want[1]), str(want[2]))
